@@ -262,8 +262,10 @@ func (a *agg) add(part string, idx int, r Result) {
 			abortRun.Store(true)
 		}
 	}
-	// keep a handful of samples: the first few of each part, preferring nontrivial ones
-	if len(a.samples) < 12 && (r.Nontrivial || a.partDone[part] <= 2) {
+	// keep a handful of samples: the first few of each part, preferring nontrivial ones,
+	// and the first case of every distinct outcome class
+	firstOfClass := r.Outcome != "" && a.outcomes[r.Outcome] == 1 && len(a.samples) < 60
+	if firstOfClass || len(a.samples) < 12 && (r.Nontrivial || a.partDone[part] <= 2) {
 		a.samples = append(a.samples, map[string]any{"part": part, "index": idx, "case": r.Case, "outcome": r.Outcome})
 	}
 }
@@ -871,7 +873,10 @@ func runShard(bin string, spec workerSpec, a *agg, deadline time.Time, onN func(
 		a.mu.Lock()
 		a.crashes++
 		a.mu.Unlock()
-		if fn == "harness" {
+		if kind == "fatal" && strings.Contains(msg, "out of memory") {
+			// resource exhaustion is outside every property's guarantee and depends on the machine
+			a.add(spec.Part, crashedAt, Result{Case: fmt.Sprintf("%s#%d", spec.Part, crashedAt), Outcome: "oom", Inconcl: "worker ran out of memory: " + msg})
+		} else if fn == "harness" {
 			hmu.Lock()
 			*herr = append(*herr, fmt.Sprintf("harness crash at %s#%d: %s", spec.Part, crashedAt, lastLines(tail, 12)))
 			hmu.Unlock()
@@ -1025,3 +1030,9 @@ func Fail(symptom, detail string, feats ...string) *Failure {
 
 // T is the *testing.T of the entry test (needed by testing/synctest).
 var T *testing.T
+
+// Note writes a line to the real stderr (fd 2) of the worker, where it ends
+// up in the crash report if the process dies during the current case.
+func Note(format string, a ...any) {
+	syscall.Write(2, []byte(fmt.Sprintf(format, a...)+"\n"))
+}
